@@ -12,5 +12,5 @@ CONSTANTS
   Remap = FALSE
   Faults = {"cancel", "disc"}
   MaxFaults = 1
-INVARIANTS TypeOK Inv_SentStored Mon_InOrder Mon_FromStart Mon_StoredDispatched
+INVARIANTS TypeOK Inv_SentStored Mon_InOrder Mon_FromStart Mon_BeforeStart Mon_StoredDispatched
 CHECK_DEADLOCK FALSE
